@@ -242,9 +242,35 @@ def frames(prog: Program, rep: Report) -> None:
     direct = stores.get("df['X']") == "X" and stores.get("df['Y']") == "Y"
     paired = stores.get("df['lon']") == "X" and stores.get("df['lat']") == "Y" and ren_ok
     rep.check(rule, cp.qual, "converted positions stored as X (from lon) and Y (from lat)", direct or paired, what_bad=f"stores {stores}, rename ok={ren_ok}", what_ok="lon->X, lat->Y", loc=cp.loc())
-    # only when X or Y is missing
-    guard = [n for n in walk_no_nested(cp.node) if isinstance(n, ast.If) and "'X' not in df.columns" in unparse(n.test)]
-    rep.check(rule, cp.qual, "grid coordinates given in the file are used unchanged", len(guard) == 1 and all(c.lineno >= guard[0].lineno for c in conv), what_bad="conversion is not limited to files without X/Y", what_ok="conversion only if X or Y is absent", loc=cp.loc())
+    # only when X or Y is missing: the conversion call is control-dependent on (X missing or Y missing)
+    from ..program import bool_table, expand_locals, single_defs
+
+    defs = single_defs(cp.node)
+
+    def atom(n):
+        if isinstance(n, ast.Compare) and len(n.ops) == 1 and isinstance(n.ops[0], (ast.In, ast.NotIn)) and isinstance(n.left, ast.Constant) and unparse(n.comparators[0]).endswith(".columns"):
+            return (f"has_{n.left.value}", isinstance(n.ops[0], ast.NotIn))
+        return None
+
+    okg = False
+    pm = {id(c): p for p in ast.walk(cp.node) for c in ast.iter_child_nodes(p)}
+    for c in conv:
+        cur = c
+        conds = []
+        while id(cur) in pm:
+            par = pm[id(cur)]
+            if isinstance(par, ast.If):
+                in_body = any(any(x is cur for x in ast.walk(s_)) for s_ in par.body)
+                e = expand_locals(par.test, cp.node, defs)
+                conds.append(e if in_body else ast.UnaryOp(op=ast.Not(), operand=e))
+            cur = par
+        if conds:
+            test = conds[0] if len(conds) == 1 else ast.BoolOp(op=ast.And(), values=conds)
+            tb = bool_table(ast.fix_missing_locations(test), atom)
+            if tb is not None and {"has_X", "has_Y"} <= set(tb[0]):
+                atoms, table = tb
+                okg = all((not val) or (not (dict(zip(atoms, asg))["has_X"] and dict(zip(atoms, asg))["has_Y"])) for asg, val in table.items())
+    rep.check(rule, cp.qual, "grid coordinates given in the file are used unchanged", okg, what_bad="the lon/lat conversion is not limited to files without X or Y", what_ok="conversion only if X or Y is absent", loc=cp.loc())
 
 
 def newton(prog: Program, rep: Report) -> None:
